@@ -5,6 +5,7 @@ import (
 	"encoding/hex"
 	"fmt"
 	"os"
+	"reflect"
 	"runtime"
 	"sort"
 	"strings"
@@ -25,7 +26,7 @@ func init() {
 
 const (
 	allocConst   = 32 * 1024 // C10: alloc <= allocConst + allocPerByte*len(input)
-	allocPerByte = 64
+	allocPerByte = 40
 	stepConst    = 256 // C09 step proxy: mallocs <= stepConst + stepPerByte*len(input)
 	stepPerByte  = 8
 )
@@ -92,6 +93,18 @@ func hostileCases(e *Env, t *schema.Type) []hcase {
 	nKey := e.N(100, 1200)
 	rng := gen.NewRng(e.Seed, "hostile", t.QName)
 	_ = gen.DefaultLens
+	// (0) a legitimate LARGE message comes first (60 000-element lists actually present), built from the same
+	// value as the first base image below: a decoder that remembers sizes across messages (per-session slabs,
+	// capacity hints keyed on a header field) then meets short hostile inputs that share its header
+	if hasList(e, t, map[string]bool{}) {
+		o := e.caseOpts(t, 1, 0, false, false)[0]
+		o.Lens, o.StrLens = []int{2, 3}, []int{3, 9}
+		v := (&gen.Gen{S: e.S, C: e.C, R: gen.NewRng(e.Seed, "hostile-base", t.QName, 0), O: o}).Value(t)
+		growLists(reflect.ValueOf(v), 60000)
+		if img, err := e.C.Encode(t, v); err == nil {
+			cs = append(cs, hcase{kind: "legitimate-large-sharing-the-header-of-later-inputs", in: img})
+		}
+	}
 	// (a) uniformly random bytes
 	lens := []int{0, 1, 2, 3, 4, 5, 7, 8, 12, 16, 24, 33, 64, 100, 256, 1000, 4096}
 	for i := 0; i < nRand; i++ {
@@ -150,6 +163,12 @@ func hostileCases(e *Env, t *schema.Type) []hcase {
 					cs = append(cs, hcase{"site-directed/+1", site, append(append([]byte(nil), head...), rng.Bytes(1)...), false})
 					cs = append(cs, hcase{"site-directed/+16", site, append(append([]byte(nil), head...), rng.Bytes(16)...), true})
 					cs = append(cs, hcase{"site-directed/valid-remainder", site, append(append([]byte(nil), head...), img[tk.Off+tk.W:]...), le == t.LE})
+					if le == t.LE && !lengthWord && (hv == hvs[0] || hv == 1<<16 || hv == 1<<15-1) {
+						// a large count in front of thousands of bytes that are really there (other frames queued behind):
+						// reserving per claimed element, bounded only by BYTES left, multiplies the input
+						cs = append(cs, hcase{"site-directed/+4KiB", site, append(append([]byte(nil), head...), rng.Bytes(4096)...), false})
+						cs = append(cs, hcase{"site-directed/+60KiB", site, append(append([]byte(nil), head...), rng.Bytes(60000)...), false})
+					}
 				}
 			}
 		}
@@ -271,6 +290,29 @@ func hostileCases(e *Env, t *schema.Type) []hcase {
 		}
 	}
 	return cs
+}
+
+// growLists makes every top-level list of a message n elements long by repeating its elements (nested lists stay as they are).
+func growLists(v reflect.Value, n int) {
+	switch v.Kind() {
+	case reflect.Pointer, reflect.Interface:
+		if !v.IsNil() {
+			growLists(v.Elem(), n)
+		}
+	case reflect.Struct:
+		for i := 0; i < v.NumField(); i++ {
+			f := v.Field(i)
+			if f.Kind() == reflect.Slice && f.Len() > 0 && f.CanSet() {
+				out := reflect.MakeSlice(f.Type(), n, n)
+				for k := 0; k < n; k++ {
+					out.Index(k).Set(f.Index(k % f.Len()))
+				}
+				f.Set(out)
+			} else if f.Kind() == reflect.Pointer || f.Kind() == reflect.Interface {
+				growLists(f, n)
+			}
+		}
+	}
 }
 
 func getIntRev(b []byte) uint64 {
